@@ -122,7 +122,7 @@ func (a *analysis) labelTruth() *vsched.Violation {
 func (a *analysis) selfCheck() *vsched.Violation {
 	for _, rid := range a.Order {
 		r := a.Reqs[rid].Res
-		if r.Status != 200 {
+		if r.Status != 200 || r.Panic != "" {
 			continue
 		}
 		_, m, h, u, _, ok := env.ParseSelf(r.Body)
